@@ -54,11 +54,12 @@ type svcRun struct {
 	prog  *os.File
 	reqID int
 	port  int // HTTP listener for third-party agent requests
+	t0    time.Time
 }
 
 func (sr *svcRun) progress(format string, a ...any) {
 	if sr.prog != nil {
-		fmt.Fprintf(sr.prog, format+"\n", a...)
+		fmt.Fprintf(sr.prog, "[%6dms] "+format+"\n", append([]any{time.Since(sr.t0).Milliseconds()}, a...)...)
 		sr.prog.Sync()
 	}
 }
@@ -86,11 +87,11 @@ func runSvcInProcess(c *lib.Ctx, sc SvcScenario) {
 	c.Cur("service-scenario", b)
 	s, err := newSession(c, false, true)
 	if err != nil {
-		c.Inconclusive("rig: " + err.Error())
+		inconclusive(c, "rig: " + err.Error())
 		return
 	}
 	defer s.close()
-	sr := &svcRun{c: c, s: s, sc: sc, gone: map[int]bool{}}
+	sr := &svcRun{c: c, s: s, sc: sc, gone: map[int]bool{}, t0: time.Now()}
 	if p := os.Getenv("C16_PROGRESS"); p != "" {
 		sr.prog, _ = os.OpenFile(p, os.O_CREATE|os.O_WRONLY|os.O_APPEND, 0o644)
 	}
@@ -103,7 +104,7 @@ func runSvcInProcess(c *lib.Ctx, sc SvcScenario) {
 		sr.viol(f.Sig, f.What, map[string]any{"step": f.Step, "ops": s.hist, "more": f.Detail})
 	}
 	if s.broken != "" {
-		c.Inconclusive("service scenario " + sc.Key() + ": " + s.broken)
+		inconclusive(c, "service scenario " + sc.Key() + ": " + s.broken)
 	}
 	sr.progress("done")
 }
@@ -111,7 +112,7 @@ func runSvcInProcess(c *lib.Ctx, sc SvcScenario) {
 func (sr *svcRun) connect(i int) bool {
 	cl, err := svcclient.Connect(sr.s.addr, "service-endpoint", "service-pw", connName(i))
 	if err != nil {
-		sr.c.Inconclusive("service connect: " + err.Error())
+		inconclusive(sr.c, "service connect: " + err.Error())
 		return false
 	}
 	sr.conns = append(sr.conns, cl)
@@ -184,8 +185,10 @@ func (sr *svcRun) expected() svcState {
 		if sr.gone[it.conn] {
 			continue
 		}
-		st.Agents = append(st.Agents, it.agent)
-		st.Listeners = append(st.Listeners, it.lkind)
+		if it.agent != "" {
+			st.Agents = append(st.Agents, it.agent)
+			st.Listeners = append(st.Listeners, it.lkind)
+		}
 		st.Endpoints = append(st.Endpoints, it.endpoint)
 		st.Registry = append(st.Registry, it.exName)
 	}
@@ -281,23 +284,41 @@ func (sr *svcRun) check(after string) {
 
 	// function. Survivors first.
 	var liveMagic uint32
-	var liveConn int
+	for _, it := range sr.items {
+		if !sr.gone[it.conn] && it.agent != "" {
+			liveMagic = it.magic
+			break
+		}
+	}
 	for _, it := range sr.items {
 		if sr.gone[it.conn] {
 			continue
 		}
-		liveMagic, liveConn = it.magic, it.conn
-		st, body, payload := sr.agentProbe(it.magic, "")
-		exp := "svc:" + connName(it.conn) + ":" + string(payload)
-		if st != 200 || body != exp {
-			sr.viol("svc-survivor-broken:agent-type", fmt.Sprintf("after %s: request of agent type %s (connection %d still attached) through the HTTP listener answered %d %q, expected 200 %q", after, it.agent, it.conn, st, clip(body), clip(exp)), detail())
+		magic, owner := it.magic, it.conn
+		if it.agent != "" {
+			st, body, payload := sr.agentProbe(it.magic, "")
+			exp := "svc:" + connName(it.conn) + ":" + string(payload)
+			if st != 200 || body != exp {
+				sr.viol("svc-survivor-broken:agent-type", fmt.Sprintf("after %s: request of agent type %s (connection %d still attached) through the HTTP listener answered %d %q, expected 200 %q", after, it.agent, it.conn, st, clip(body), clip(exp)), detail())
+			} else {
+				sr.c.Observe("survivor-agent-type-answers", 1)
+			}
 		} else {
-			sr.c.Observe("survivor-agent-type-answers", 1)
+			// an ExC2 endpoint registered on its own: reach it with the first live agent type
+			if liveMagic == 0 {
+				continue
+			}
+			magic = liveMagic
+			for _, o := range sr.items {
+				if o.magic == liveMagic && o.agent != "" {
+					owner = o.conn
+				}
+			}
 		}
-		st, body, payload = sr.agentProbe(it.magic, it.endpoint)
-		exp = "svc:" + connName(it.conn) + ":" + string(payload)
+		st, body, payload := sr.agentProbe(magic, it.endpoint)
+		exp := "svc:" + connName(owner) + ":" + string(payload)
 		if st != 200 || body != exp {
-			sr.viol("svc-survivor-broken:exc2-endpoint", fmt.Sprintf("after %s: request of agent type %s through ExC2 endpoint /%s (connection %d still attached) answered %d %q, expected 200 %q", after, it.agent, it.endpoint, it.conn, st, clip(body), clip(exp)), detail())
+			sr.viol("svc-survivor-broken:exc2-endpoint", fmt.Sprintf("after %s: request through ExC2 endpoint /%s (connection %d still attached) answered %d %q, expected 200 %q", after, it.endpoint, it.conn, st, clip(body), clip(exp)), detail())
 		} else {
 			sr.c.Observe("survivor-exc2-endpoint-answers", 1)
 		}
@@ -310,20 +331,19 @@ func (sr *svcRun) check(after string) {
 		if !sr.gone[it.conn] {
 			continue
 		}
-		st, body, _ := sr.agentProbe(it.magic, "")
-		if st == 404 {
-			sr.c.Observe("removed-agent-type-gets-decoy", 1)
-		} else if stateAgents[it.agent] {
-			sr.c.Observe("leftover-agent-type-still-answers", 1) // same defect as svc-leftover:agent-type
-		} else {
-			sr.viol("svc-removed-answers:agent-type", fmt.Sprintf("after %s: agent type %s is no longer registered but its requests are not answered by the decoy (status %d body %q)", after, it.agent, st, clip(body)), detail())
+		if it.agent != "" {
+			st, body, _ := sr.agentProbe(it.magic, "")
+			if st == 404 {
+				sr.c.Observe("removed-agent-type-gets-decoy", 1)
+			} else if stateAgents[it.agent] {
+				sr.c.Observe("leftover-agent-type-still-answers", 1) // same defect as svc-leftover:agent-type
+			} else {
+				sr.viol("svc-removed-answers:agent-type", fmt.Sprintf("after %s: agent type %s is no longer registered but its requests are not answered by the decoy (status %d body %q)", after, it.agent, st, clip(body)), detail())
+			}
 		}
-		// its endpoint: with a magic of a live connection if there is one, else its own
-		m := it.magic
-		if liveMagic != 0 {
-			m = liveMagic
-		}
-		st, body, _ = sr.agentProbe(m, it.endpoint)
+		// its endpoint, probed with an unregistered magic value: a route answers 404 through
+		// External.Request, no route gets gin's empty 200
+		st, body := sr.s.postTS(it.endpoint)
 		routed := !(st == refSt && body == refBody)
 		switch {
 		case !routed:
@@ -333,7 +353,6 @@ func (sr *svcRun) check(after string) {
 		default:
 			sr.viol("svc-removed-answers:exc2-endpoint", fmt.Sprintf("after %s: endpoint /%s is no longer registered but still routed (status %d)", after, it.endpoint, st), detail())
 		}
-		_ = liveConn
 	}
 }
 
@@ -431,27 +450,34 @@ func (sr *svcRun) disconnects() {
 	sr.s.checkViews(true)
 	for step, d := range sc.Disc {
 		what := fmt.Sprintf("disconnect #%d of connection %d (order %v, %d connections attached)", step+1, d, sc.Disc, n-step)
-		b, _ := json.Marshal(map[string]any{"scenario": sc, "about_to": what})
-		sr.c.Cur("service-disconnect", b)
-		sr.progress("about to: %s", what)
-		sr.c.Checkpoint()
-		cl := sr.conns[d]
-		// a close frame: the teamserver's read fails, it cleans up and closes the socket;
-		// the socket closing on our side is after the agent/listener cleanup
-		cl.Conn.WriteControl(websocket.CloseMessage, websocket.FormatCloseMessage(websocket.CloseNormalClosure, ""), time.Now().Add(5*time.Second))
-		deadline := time.Now().Add(10 * time.Second)
-		for !cl.Closed() && time.Now().Before(deadline) {
-			time.Sleep(5 * time.Millisecond)
+		sr.disconnect(d, what, step == len(sc.Disc)-1)
+		if sr.s.broken != "" {
+			return
 		}
-		cl.Close()
-		sr.gone[d] = true
-		sr.c.Observe("service-disconnects", 1)
-		sr.check(what)
-		sr.survivorKinds(what)
-		sr.s.checkViews(step == len(sc.Disc)-1)
-		sr.progress("survived: %s", what)
-		sr.c.Observe("teamserver-survived-disconnect", 1)
 	}
+}
+
+// disconnect closes connection d and compares state and function afterwards.
+func (sr *svcRun) disconnect(d int, what string, fresh bool) {
+	b, _ := json.Marshal(map[string]any{"scenario": sr.sc, "about_to": what})
+	sr.c.Cur("service-disconnect", b)
+	sr.progress("about to: %s", what)
+	sr.c.Checkpoint()
+	cl := sr.conns[d]
+	// a close frame: the teamserver's read fails and it cleans up after the connection
+	cl.Conn.WriteControl(websocket.CloseMessage, websocket.FormatCloseMessage(websocket.CloseNormalClosure, ""), time.Now().Add(5*time.Second))
+	deadline := time.Now().Add(10 * time.Second)
+	for !cl.Closed() && time.Now().Before(deadline) {
+		time.Sleep(5 * time.Millisecond)
+	}
+	cl.Close()
+	sr.gone[d] = true
+	sr.c.Observe("service-disconnects", 1)
+	sr.check(what)
+	sr.survivorKinds(what)
+	sr.s.checkViews(fresh)
+	sr.progress("survived: %s", what)
+	sr.c.Observe("teamserver-survived-disconnect", 1)
 }
 
 // collide: service-defined listeners and ExC2 listeners against built-in names.
@@ -484,7 +510,7 @@ func (sr *svcRun) collide() {
 			s.reserved[name] = true
 		}
 		if ok && wantOK {
-			sr.items = append(sr.items, svcItem{conn: 0, exName: name, endpoint: ep, agent: sr.items[0].agent, magic: sr.items[0].magic, lkind: sr.items[0].lkind})
+			sr.items = append(sr.items, svcItem{conn: 0, exName: name, endpoint: ep, magic: sr.items[0].magic})
 		}
 		s.hist = append(s.hist, Op{V: "exc2", N: name})
 		s.checkViews(false)
@@ -524,10 +550,27 @@ func (sr *svcRun) collide() {
 		exc2("X", "xe-X", true)
 		exc2("X", "xe-X2", false)
 		sr.check("refused ExC2 duplicate")
+	case "operator-removes-exc2":
+		exc2("X", "xe-X", true)
+		s.apply(Op{V: "remove", N: "X"})
+		delete(s.reserved, "X")
+		var keep []svcItem
+		for _, it := range sr.items {
+			if it.exName != "X" {
+				keep = append(keep, it)
+			}
+		}
+		sr.items = keep
+		sr.check("operator removal of an ExC2 listener")
+		s.apply(Op{V: "add", K: "Smb", N: "X"}) // the name is free again
+		s.apply(Op{V: "fresh"})
 	}
 	// a service-defined instance is neither persisted nor part of the three views; the
 	// model keeps it only for name uniqueness
 	sr.check("collision case")
+	if s.broken == "" {
+		sr.disconnect(0, "disconnect of the only connection after collision case "+sr.sc.Collide, true)
+	}
 }
 
 var _ = opclient.EvListener
